@@ -28,6 +28,9 @@ def tab_for(*texts):
         for c in t:
             if ord(c) >= 128:
                 chars.add(c)
+                for d in c.lower():          # the model folds what it has lower-cased (e.g. U+1E9E -> U+00DF -> "ss")
+                    if ord(d) >= 128:
+                        chars.add(d)
     chars = sorted(chars)
     return {'word': [ord(c) for c in chars if _W.match(c)],
             'lower': [[ord(c), common.cps(c.lower())] for c in chars if c.lower() != c],
@@ -380,7 +383,7 @@ def g_path(rng, depth=3, feat=None):
     nk = rng.choice([1, 1, 1, 2, 2, 3, 4, 6]) if rng.random() > 0.02 else 0
     keys, seen = [], set()
     for _ in range(nk):
-        k = g_name(rng)
+        k = g_name(rng, 0.0 if feat.get('dot_i') else 0.06)      # F4 paths carry no other non-ASCII letter: causes stay separable
         if k.casefold() in seen:
             continue
         seen.add(k.casefold())
@@ -389,6 +392,12 @@ def g_path(rng, depth=3, feat=None):
     if host is not None and ns is None and not feat.get('hostnons') :
         ns = g_ns(rng) or 'root'       # host without namespace only as a dedicated feature (open finding in the historical format)
     return {'host': host, 'ns': ns, 'cls': g_name(rng, 0.06, bool(feat.get('dot_i'))), 'keys': keys}
+
+
+def swap(s):
+    """str.swapcase() without creating a capital sigma (the one letter whose lower() depends on its neighbours,
+    which the character-wise model of lower() does not follow) and, like upper(), without changing the length"""
+    return ''.join(d if (len(d) == 1 and d != '\u03a3') else c for c, d in ((c, c.swapcase()) for c in s))
 
 
 def swapcase_safe(s, rng):
@@ -797,18 +806,18 @@ def mutate_spec(spec, rng, depth=0):
     s = copy.deepcopy(spec)
     r = rng.random()
     if r < 0.12:
-        s['host'] = rng.choice([None, 'other.example', (s['host'] or 'h') + 'x', (s['host'] or 'H').swapcase()])
+        s['host'] = rng.choice([None, 'other.example', (s['host'] or 'h') + 'x', swap(s['host'] or 'H')])
     elif r < 0.24:
-        s['ns'] = rng.choice([None, 'root/other', (s['ns'] or 'n') + 'x', (s['ns'] or 'N').swapcase(), '/' + (s['ns'] or 'n') + '/'])
+        s['ns'] = rng.choice([None, 'root/other', (s['ns'] or 'n') + 'x', swap(s['ns'] or 'N'), '/' + (s['ns'] or 'n') + '/'])
     elif r < 0.34:
-        s['cls'] = rng.choice([s['cls'] + 'x', s['cls'].swapcase(), s['cls'][:-1] or 'Z'])
+        s['cls'] = rng.choice([s['cls'] + 'x', swap(s['cls']), s['cls'][:-1] or 'Z'])
     elif not s['keys'] or r < 0.42:
         s['keys'].append(['zz_extra', {'t': 'bool', 'v': True}])
     elif r < 0.50:
         del s['keys'][rng.randrange(len(s['keys']))]
     elif r < 0.58:
         i = rng.randrange(len(s['keys']))
-        s['keys'][i][0] = rng.choice([s['keys'][i][0].swapcase(), s['keys'][i][0] + 'x'])
+        s['keys'][i][0] = rng.choice([swap(s['keys'][i][0]), s['keys'][i][0] + 'x'])
     else:
         i = rng.randrange(len(s['keys']))
         v = s['keys'][i][1]
@@ -907,7 +916,7 @@ def do_glue(run, batch, spec, p, rng):
     kbs = [[k0, v0] for k0, v0 in spec['keys']]
     if kbs and rng.random() < 0.5:
         k0, v0 = rng.choice(kbs)
-        kbs.insert(rng.randrange(len(kbs) + 1), [rng.choice([k0.swapcase(), k0.upper(), k0]), {'t': 'int', 'v': str(rng.randint(0, 9))}])
+        kbs.insert(rng.randrange(len(kbs) + 1), [rng.choice([swap(k0), swap(k0.lower()), k0]), {'t': 'int', 'v': str(rng.randint(0, 9))}])
     ns = spec['ns']
     if ns is not None and rng.random() < 0.5:
         ns = rng.choice(['/', '//', '']) + ns + rng.choice(['/', '//', ''])
@@ -993,7 +1002,7 @@ def g_ops(rng, spec):
         names = [k for k, _ in node['keys']]
         key = rng.choice(names + ['zz_new']) if names else 'zz_new'
         if rng.random() < 0.3:
-            key = key.swapcase()
+            key = swap(key)
         val = rng.choice([{'t': 'int', 'v': str(rng.randint(0, 99))}, {'t': 'str', 'v': g_string(rng)}, {'t': 'bool', 'v': True},
                           {'t': 'uint8', 'v': '7'}])
         ops.append({'route': rng.choice(ROUTES), 'at': at, 'key': key, 'val': val,
